@@ -241,7 +241,7 @@ Definition header_ok (t : list Z) : option (nat * list Z) :=
   end%Z.
 
 (* conformance: the observed label trace is a trace of the LTS *)
-Definition conform_case (t : list Z) : list Z :=
+Definition conform_emitter (t : list Z) : list Z :=
   match header_ok t with
   | None => [ERR_MALFORMED; 0]
   | Some (cap, r) =>
@@ -254,7 +254,7 @@ Definition conform_case (t : list Z) : list Z :=
   end%Z.
 
 (* monitor: the property on the observed labels alone *)
-Definition monitor_case (t : list Z) : list Z :=
+Definition monitor_emitter (t : list Z) : list Z :=
   match header_ok t with
   | None => [ERR_MALFORMED; 0]
   | Some (_, r) =>
